@@ -26,7 +26,10 @@ META = {
         "C01.iteration.order",
         "C01.coordinate_field",
         "C01.region.contains",
+        "amb.index2point.formula",
+        "amb.point2index.cell_contains_point",
     ],
+    "owns": ["amb.index2point.formula", "amb.point2index.cell_contains_point"],
     "ambient": {"quick": [], "thorough": [
         "discretisedfield/tests/test_mesh.py", "discretisedfield/tests/test_region.py"]},
     "anchor_files": ["discretisedfield/mesh.py", "discretisedfield/region.py"],
